@@ -198,6 +198,7 @@ PROPS = {
     "C03": dict(
         module="SeliumModel.Props.C03",
         suites=["e2epub", "pubsub", "codec"],
+        fn_tie=[dict(module="SeliumModel.Props.C03Gen", gen="MsgBatchFn")],
         level="proof",
         rule="a real Publisher and Subscriber (client library) through an in-process selium server over loopback QUIC with certificates generated at run time by the bundled generator: codec (String/Bytes/Bincode) x compression (none, gzip, zlib, zstd, lz4, brotli) x batching (off; sizes 1,3,4,100 with a 60 s interval; size 3 with 0 ms and 5 ms intervals) x item counts 0,1,size-1,size,size+1,2*size+1; plus isolated-process cases for extreme batch sizes / intervals (0, u32::MAX, u64::MAX ms, Duration::MAX), payloads at the frame limit, batches larger than the limit before and after compression, a subscriber that only starts reading after more than a stream window has been published; a send() that returns an error does not end a case (the item was not accepted); the indices of the items the subscriber yields and of the refused sends are compared with the Lean model (frame limit included); pubsub: the router suite of C01 (forwarding is part of end-to-end fidelity) of the publisher/subscriber pipeline; ppdup: a publisher duplicated before its first send / with a partial batch / after a framed batch / unbatched; codec: the hypotheses of the theorem (lossless codecs and compressors) on the real codecs and libraries, see C14; distinct = distinct case lines, trivial = 0 items",
         trusted_base=COMMON_TRUST + [
